@@ -54,6 +54,7 @@ func (x *Exec) registerGhosts() {
 	}
 	x.Ghosts["constant"] = ghostConstant
 	x.Ghosts["up"] = ghostUp
+	x.Ghosts["frame"] = ghostFrame
 }
 
 func (x *Exec) needFam(name string) *famEnv {
@@ -302,4 +303,26 @@ func ghostCall(f *Frame, st, old *State, idx []spec.Expr, args []spec.Expr) TV {
 		fe.memo[key] = tv
 	}
 	return tv
+}
+
+// frame(v [, depth]): the run-time frame the compile-time variable v (a *Var, *Symbol, ...) lives
+// in: up(env, v.Upn), or the file-level frame when v.Upn is depth-1 / depth (environment invariant).
+func ghostFrame(f *Frame, st, old *State, idx []spec.Expr, args []spec.Expr) TV {
+	x := f.x
+	fe := x.needFam("frame")
+	if len(args) < 1 {
+		specErr("frame(v [, depth])")
+	}
+	par := fe.parent
+	v := fe.atCreation(args[0])
+	var depthT *smt.Term
+	if len(args) > 1 {
+		depthT = par.asInt64(fe.atCreation(args[1]))
+	}
+	sc, si := par.cur, par.curIdx
+	par.cur, par.curIdx = nil, 0
+	defer func() { par.cur, par.curIdx = sc, si }()
+	upn := par.asInt64(par.selectField(v, "Upn", fe.create))
+	envT := fe.envType()
+	return TV{x.frameOf(fe, st, upn, depthT), types.NewPointer(envT)}
 }
